@@ -35,10 +35,10 @@ PROPS["C10"] = dict(
           "distinct = hash of the canonical case descriptor"),
     assumptions=["certificate-transparency-go's tls.Marshal and the hand-written vfref encoder are correct renderings of RFC 6962"],
     units=[
-        rapid("root", ".", "^TestVerifC10EntryRoundTrip$", 4000, 20000),
-        rapid("root", ".", "^TestVerifC10DecodeBytes$", 20000, 100000),
-        rapid("root", ".", "^TestVerifC10Extensions$", 10000, 50000),
-        rapid("root", ".", "^TestVerifC10TilePath$", 10000, 50000),
+        rapid("root", ".", "^TestVerifC10EntryRoundTrip$", 4000, 5000),
+        rapid("root", ".", "^TestVerifC10DecodeBytes$", 20000, 40000),
+        rapid("root", ".", "^TestVerifC10Extensions$", 10000, 30000),
+        rapid("root", ".", "^TestVerifC10TilePath$", 10000, 30000),
         fuzz("root", ".", "FuzzVerifC10ReadTileLeaf"),
         fuzz("root", ".", "FuzzVerifC10ParseTilePath", "60s"),
         fuzz("root", ".", "FuzzVerifC10ParseExtensions", "60s"),
@@ -67,8 +67,8 @@ PROPS["C01"] = dict(
                  "leaf timestamps equal the tree head timestamp of the round that sequenced them (what the code does), used to predict roots"],
     technique="stateful property-based testing over a fault-injecting storage/lock simulator with an independent RFC 6962 model",
     units=[
-        sim("^TestVerifC01History$", 300, 1500, files=["sim*.go", "c01*.go", "c03_crash.go"]),
-        sim("^TestVerifC01FaultSweep$", 4, 40, qs=2, files=["sim*.go", "c01*.go", "c03_crash.go"]),
+        sim("^TestVerifC01History$", 300, 1000, files=["sim*.go", "c01*.go", "c03_crash.go"]),
+        sim("^TestVerifC01FaultSweep$", 4, 10, qs=2, files=["sim*.go", "c01*.go", "c03_crash.go"]),
     ],
 )
 
@@ -84,9 +84,9 @@ PROPS["C03"] = dict(
                  "the cache database of a crashed process is rolled back to the crash instant"],
     technique="exhaustive crash-point enumeration over generated rounds on a fault-injecting simulator, independent RFC 6962 audit as oracle",
     units=[
-        sim("^TestVerifC03CrashSweep$", 3, 30, qs=4, files=["sim*.go", "c03*.go"]),
-        sim("^TestVerifC03FatSweep$", 1, 3, qs=1, ts=8, files=["sim*.go", "c03*.go"]),
-        sim("^TestVerifC03RealSweep$", 1, 3, qs=1, ts=8, files=["sim*.go", "c03*.go"]),
+        sim("^TestVerifC03CrashSweep$", 3, 8, qs=4, files=["sim*.go", "c03*.go"]),
+        sim("^TestVerifC03FatSweep$", 1, 2, qs=1, ts=8, files=["sim*.go", "c03*.go"]),
+        sim("^TestVerifC03RealSweep$", 1, 2, qs=1, ts=8, files=["sim*.go", "c03*.go"]),
     ],
 )
 
@@ -100,7 +100,7 @@ PROPS["C04"] = dict(
     assumptions=["names-tile lines are required only for certificates that crypto/x509 parses (what the code does; the public API cannot admit others)"],
     technique="stateful property-based testing with an invariant audited after every storage operation against an independent Static-CT renderer",
     units=[
-        sim("^TestVerifC04Storage$", 120, 1000, files=["sim*.go", "c04*.go"]),
+        sim("^TestVerifC04Storage$", 120, 500, files=["sim*.go", "c04*.go"]),
         sim("^TestVerifC04HugeIndex$", 40, 200, ts=4, files=["sim*.go", "c04*.go"]),
     ],
 )
@@ -115,7 +115,7 @@ PROPS["C02"] = dict(
     assumptions=["releases are observed at storage/lock-operation granularity (harness-owned schedule)", "SCT signature correctness over real chains is covered by the HTTP-level unit and by C09"],
     technique="stateful property-based testing with harness-owned scheduling of concurrent submitters on a fault-injecting simulator",
     units=[
-        sim("^TestVerifC02Acks$", 250, 1200, files=["sim*.go", "c02*.go", "c09_forest.go:pkg=ctlog", "c09_oracle.go:pkg=ctlog"]),
+        sim("^TestVerifC02Acks$", 250, 500, files=["sim*.go", "c02*.go", "c09_forest.go:pkg=ctlog", "c09_oracle.go:pkg=ctlog"]),
     ],
 )
 
@@ -131,7 +131,7 @@ PROPS["C07"] = dict(
     technique="stateful property-based testing with a predicted-source deduplication oracle; differential test of the key derivation",
     bins=["cmd/recompute-cache"],
     units=[
-        sim("^TestVerifC07Dedup$", 250, 1000, files=["sim*.go", "c07*.go"]),
+        sim("^TestVerifC07Dedup$", 250, 450, files=["sim*.go", "c07*.go"]),
         sim("^TestVerifC07CacheKey$", 5000, 20000, ts=2, files=["sim*.go", "c07*.go"]),
         rapid("recompute", "cmd/recompute-cache", "^TestVerifC07ToolCacheKey$", 5000, 20000, ts=2),
     ],
@@ -148,8 +148,8 @@ PROPS["C06"] = dict(
     assumptions=["interleavings are explored at storage/lock-operation granularity; all instances share one object store"],
     technique="property-based testing with harness-owned interleaving of several server instances on a simulated CAS lock store",
     units=[
-        sim("^TestVerifC06Instances$", 250, 1200, files=["sim*.go", "c06*.go"]),
-        sim("^TestVerifC06Startup$", 300, 800, files=["sim*.go", "c06*.go"]),
+        sim("^TestVerifC06Instances$", 250, 700, files=["sim*.go", "c06*.go"]),
+        sim("^TestVerifC06Startup$", 300, 600, files=["sim*.go", "c06*.go"]),
     ],
 )
 
@@ -163,7 +163,7 @@ PROPS["C08"] = dict(
     assumptions=["the lock store is trusted (C08 is about object storage)", "a panic counts as stopping"],
     technique="mutation-based generation of storage states with a storage-independent Merkle model as oracle",
     units=[
-        sim("^TestVerifC08Tamper$", 400, 2000, files=["sim*.go", "c08*.go"]),
+        sim("^TestVerifC08Tamper$", 400, 1000, files=["sim*.go", "c08*.go"]),
     ],
 )
 
@@ -176,6 +176,6 @@ PROPS["C17"] = dict(
     assumptions=["virtual time of testing/synctest; status-code mapping (503/410) is exercised by C09's HTTP harness, here the error identities are checked"],
     technique="model-based property testing under virtual time (testing/synctest)",
     units=[
-        sim("^TestVerifC17Admission$", 500, 3000, files=["sim*.go", "c17*.go"]),
+        sim("^TestVerifC17Admission$", 500, 2000, files=["sim*.go", "c17*.go"]),
     ],
 )
